@@ -90,6 +90,9 @@ def install(eng):
                             "logging": ModuleStub("logging", {"getLogger": stub(lambda eng, *a: NoOp())}),
                             "itertools": ModuleStub("itertools", {"chain": chain_obj}), "re": ModuleStub("re", {}),
                             "sys": ModuleStub("sys", {"maxsize": 2 ** 63 - 1}), "collections": CollectionsStub(), "typing": typing})
+    # stubs a previous harness installed in place of repo modules must not leak into the next one
+    for k in ("pymoca.backends.casadi.generator", "pymoca.parser", "pymoca"):
+        eng.ext_modules.pop(k, None)
     eng.call_contracts.clear()
     eng.loop_specs.clear()
 
@@ -367,11 +370,84 @@ def h_substitute_delay_arguments(eng):
     eng.prove("subst.expression_and_duration_of_every_delay_rewritten_with_the_full_substitution", z3.BoolVal(bool(ok)), kinds=kinds)
 
 
+def h_delay_translation_in_loop(eng):
+    """delay() inside a for-loop (the loop object built by the REAL ForLoop constructor): whether or not the delayed expression uses a
+    symbol indexed by the loop, delay_states, the delay inputs and delay_arguments are extended together, by one entry each, for the
+    same new delay state -- the three lists are paired BY POSITION everywhere else (delay_arguments_function, vector expansion, the
+    model cache), so they must be in step after every delay() call, not only when the loop is closed."""
+    install(eng)
+    from contracts.C11 import Arange, _get_integer
+    from contracts.ast_common import AstFactory
+    gm = eng.load_module(GEN)
+    eng.ext_modules["numpy"].attrs["arange"] = stub(lambda eng, a, b, s_=1, dtype=None: Arange(a, b, s_))
+    from contracts.api_common import CollectionsStub
+    var_cls = eng.module_global(gm, "Variable")
+    var_cls.constructor = lambda eng, c, a, kw: VObj(c, {"symbol": a[0]})
+    da_cls = VClass("DelayArgument")
+    da_cls.constructor = lambda eng, c, a, kw: VObj(c, {"expr": a[0], "duration": a[1]})
+    gm.globals["DelayArgument"] = da_cls
+    new = []
+
+    def new_mx(eng, args, kw):
+        mx = MXS(EMPTY, args[0])
+        new.append(mx)
+        return mx
+    eng.call_contracts["_new_mx"] = new_mx
+    # the open loop
+    A = AstFactory(eng)
+    stop_node = A.ref("n")
+    rng = VObj(VClass("Slice"), {"start": A.prim(1), "step": A.prim(1), "stop": stop_node})
+    idx = VObj(VClass("ForIndex"), {"name": "i", "expression": rng})
+    loop_tree = VObj(VClass("ForEquation"), {"indices": VList([idx])})
+    genstub = VObj(VClass("GeneratorStub"), {"map_mode": "inline"})
+    genstub.cls.attrs["get_integer"] = _get_integer(stop_node, 3)
+    loop = eng.call(eng.module_global(gm, "ForLoop"), [genstub, loop_tree], {})
+    new.clear()
+    xi = MXS(eng.fresh("XI", SSet), "x[i]")
+    loop.fields["indexed_symbols"].keys.append(xi)
+    loop.fields["indexed_symbols"].vals.append(VObj(VClass("ForLoopIndexedSymbol"), {}))
+    registered = []
+
+    def reg(eng, selfobj, e, *a, **k):
+        registered.append(e)
+    reg._pyvc_method = True
+    loop.cls.attrs["register_indexed_symbol"] = reg
+    uses_indexed = bool(eng.choice(2))
+    eng.input("delayed_expression_uses_a_symbol_indexed_by_the_loop", uses_indexed)
+    k = eng.choice(2)
+    eng.input("existing_delays", k)
+    model = VObj(VClass("Model"), {"delay_states": VList(["old%d" % i for i in range(k)]),
+                                   "inputs": VList([VObj(var_cls, {"symbol": MXS(EMPTY, "oldin%d" % i)}) for i in range(k)]),
+                                   "delay_arguments": VList([VObj(da_cls, {}) for i in range(k)])})
+    e_expr, e_dur = MXS(eng.fresh("E", SSet), "expr"), MXS(eng.fresh("D", SSet), "duration")
+    eng.ext_modules["casadi"].attrs["symvar"] = stub(lambda eng, e: VList([xi, MXS(EMPTY, "other")] if uses_indexed else [MXS(EMPTY, "other")]))
+    t0, t1 = VObj(VClass("Node")), VObj(VClass("Node"))
+    tree = VObj(VClass("Expression"), {"operator": "delay", "operands": VList([t0, t1])})
+    n0 = eng.fresh_int("n")
+    eng.assume(n0 >= 0)
+    from contracts.gen_common import new_generator
+    g = new_generator(eng, gm, {"model": model, "delay_counter": n0, "for_loops": VList([loop]), "src": VDict()})
+    eng.call_contracts["Generator.get_mx"] = lambda eng, args, kw: e_expr if args[1] is t0 else (e_dur if args[1] is t1 else _uns())
+    try:
+        eng.exec_fragment(GEN, "Generator.exitExpression", delay_branch, {"self": g, "tree": tree, "op": "delay", "n_operands": 2}, label="delay-branch")
+    except PyRaise as e:
+        eng.prove("delayloop.no_exception", False, exc=repr(e.exc))
+        return
+    eng.cover("delayloop.done")
+    eng.prove("delayloop.no_exception", True)
+    ds, ins, das = model.fields["delay_states"].items, model.fields["inputs"].items, model.fields["delay_arguments"].items
+    ok = len(ds) == k + 1 and len(ins) == k + 1 and len(das) == k + 1 and len(new) == 1
+    ok = ok and ins[k].fields.get("symbol") is new[0] and das[k].fields.get("expr") is e_expr and das[k].fields.get("duration") is e_dur
+    eng.prove("delayloop.states_inputs_and_arguments_stay_in_step_inside_a_loop", z3.BoolVal(bool(ok)), states=len(ds), inputs=len(ins), arguments=len(das))
+    eng.prove("delayloop.delay_symbol_is_mapped_over_the_loop_iff_the_expression_is_indexed", z3.BoolVal((len(registered) == 1 and registered[0] is new[0]) if uses_indexed else not registered))
+
+
 HARNESSES = [("Model._post_checks", h_post_checks), ("Model._post_checks/no-delays", h_no_delays),
              ("Generator.exitExpression#delay-branch", h_delay_translation),
              ("Model.delay_arguments_function", h_delay_arguments_function), ("api._compile_model", h_compile_calls_post_checks),
-             ("Model._substitute_delay_arguments", h_substitute_delay_arguments)]
-EXPECTED_COVER = {"post.raises", "post.returns", "post.nodelay", "delay.done", "dafn.done", "compile.done", "subst.done"}
+             ("Model._substitute_delay_arguments", h_substitute_delay_arguments),
+             ("Generator.exitExpression#delay-branch inside a for-loop", h_delay_translation_in_loop)]
+EXPECTED_COVER = {"post.raises", "post.returns", "post.nodelay", "delay.done", "dafn.done", "compile.done", "subst.done", "delayloop.done"}
 BOUNDED = True
 LEVEL = "proof"
 TRUSTED = ["pyvc VC generator", "z3 5.1.0",
@@ -379,7 +455,7 @@ TRUSTED = ["pyvc VC generator", "z3 5.1.0",
            "a Variable's symbol is one CasADi symbol, distinct per variable"]
 ASSUMPTIONS = [
     "shapes enumerated: 1-3 delays, 0-2 variables per category; the free-symbol set of every duration is an arbitrary set; input fixed flags symbolic",
-    "delays inside for-loops (registration of the indexed symbol) are exercised by the bounded replay only",
+    "delays inside for-loops: the delay branch is verified with one open loop (built by the real ForLoop constructor) for indexed and loop-invariant expressions; the re-shaping of the delay argument when the loop is closed (exitForEquation's delay part) is exercised by the bounded replay only",
 ]
 EXPLANATION = "Set-algebra contract of _post_checks plus lock-step bookkeeping of the delay translation."
 MANIFEST = {
